@@ -389,3 +389,101 @@ Lemma uniq_inv_run ks tr s : run (init ks) tr = Some s -> uniq_inv s.
 Proof.
   intros H. exact (run_invariant_all uniq_inv uniq_inv_step tr (init ks) s (uniq_inv_init ks) H).
 Qed.
+
+(* a private copy comes from that very client's own fetch *)
+Definition holds_private (p : phase) (k : akind) (n : Z) : Prop :=
+  p = Post (PHave (RPrivate k n)) \/ p = Done (RPrivate k n).
+
+Lemma holds_private_step s a s' c k n :
+  lts_step s a = Some s' -> holds_private (ph s' c) k n ->
+  holds_private (ph s c) k n \/ a = FollowerFallback c k.
+Proof.
+  intros Hstep Hh. unfold holds_private in *.
+  destruct a; step_cases Hstep; state_cbn; auto.
+  all: try (unfold upd in Hh;
+            match type of Hh with context [?c0 =? ?c1] =>
+              let E := fresh "E" in destruct (c0 =? c1) eqn:E;
+              [apply Z.eqb_eq in E; subst|apply Z.eqb_neq in E] end; auto).
+  all: try (destruct Hh as [Hh|Hh]; try discriminate; inv Hh; auto; fail).
+  (* FlightReturn *)
+  destruct (ph s c) eqn:Ep; auto.
+  destruct r; cbn in Hh; destruct Hh as [Hh|Hh]; discriminate.
+Qed.
+
+Lemma holds_private_run c k n : forall tr s s',
+  run s tr = Some s' -> holds_private (ph s' c) k n ->
+  holds_private (ph s c) k n \/ In (FollowerFallback c k) tr.
+Proof.
+  induction tr as [|a tr IH]; intros s s' Hrun Hh; cbn [run] in Hrun.
+  - inv Hrun. auto.
+  - destruct (lts_step s a) as [s1|] eqn:E; [|discriminate].
+    destruct (IH s1 s' Hrun Hh) as [H1|H1]; [|right; right; exact H1].
+    destruct (holds_private_step s a s1 c k n E H1) as [H2|H2]; [left; exact H2|right; left; auto].
+Qed.
+
+(* when nothing the origin says is cacheable (and the key was not fresh), nothing is ever
+   handed out from the cache: every answer is somebody's own copy *)
+Definition unc_ph (p : phase) : Prop :=
+  match p with
+  | Idle | InFlight | Gone | Post PDirect => True
+  | Post (PHave r) | Done r => exists k n, r = RPrivate k n /\ kind_uncacheable k = true
+  | Post (PCached _ _) => False
+  end.
+
+Definition unc_inv (s : state) : Prop :=
+  (forall v, cache s <> Some (v, true)) /\ (forall c, unc_ph (ph s c)) /\
+  match stage_of s with
+  | Some (SAnswered _ k) => kind_uncacheable k = true
+  | Some (SResult (FCached _)) | Some (SResult FError) => False
+  | _ => True
+  end.
+
+Lemma unc_inv_init ks : ks <> Fresh -> unc_inv (init ks).
+Proof.
+  intros H. unfold unc_inv, stage_of; cbn. repeat split; auto.
+  destruct ks; cbn; congruence.
+Qed.
+
+Lemma unc_inv_step s a s' :
+  unc_inv s -> uncacheable_ok a = true -> lts_step s a = Some s' -> unc_inv s'.
+Proof.
+  intros (Hc & Hcl & Hfl) Hok Hstep.
+  destruct a; step_cases Hstep; try (cbn in Hok; discriminate);
+    try (client_fact Hcl c Hcc; try contradiction);
+    know_stage Hfl; try contradiction; unfold unc_inv, stage_of; state_cbn;
+    repeat match goal with E : flight_ _ = _ |- _ => rewrite E end; state_cbn;
+    repeat match goal with E : fl_stage _ = _ |- _ => rewrite E end.
+  all: repeat split; auto; try congruence; try (per_client Hcl); try (intros; congruence).
+  all: try (exfalso; eapply Hc; eauto; fail).
+  all: try (eexists _, _; split; [reflexivity|auto]; fail).
+  all: try (cbn in Hfl; discriminate).
+  destruct r; try contradiction. destruct (ph s c0); cbn in *; auto.
+Qed.
+
+Theorem private_copies : forall ks tr s,
+  run (init ks) tr = Some s ->
+  (forall c1 c2 k1 k2 n1 n2,
+      ph s c1 = Done (RPrivate k1 n1) -> ph s c2 = Done (RPrivate k2 n2) -> c1 <> c2 -> n1 <> n2) /\
+  (forall c k n, ph s c = Done (RPrivate k n) ->
+      1 <= n <= origin_count s /\ ~ In n (stored s) /\ In (FollowerFallback c k) tr) /\
+  (ks <> Fresh -> forallb uncacheable_ok tr = true ->
+   forall c r, ph s c = Done r -> exists k n, r = RPrivate k n /\ kind_uncacheable k = true).
+Proof.
+  intros ks tr s Hrun.
+  pose proof (uniq_inv_run ks tr s Hrun) as (Hp & Hu & _).
+  split; [|split].
+  - intros c1 c2 k1 k2 n1 n2 H1 H2 Hne Heq. subst n2. apply Hne.
+    apply (Hu c1 c2 n1); [rewrite H1|rewrite H2]; reflexivity.
+  - intros c k n Hd.
+    assert (Hpr : private_nr (ph s c) = Some n) by (rewrite Hd; reflexivity).
+    destruct (Hp c n Hpr) as (A & B & _). repeat split; try tauto.
+    destruct (holds_private_run c k n tr (init ks) s Hrun) as [[H|H]|H]; auto.
+    + right; exact Hd.
+    + cbn in H. discriminate.
+    + cbn in H. discriminate.
+  - intros Hks Hok c r Hd.
+    assert (Hinv : unc_inv s).
+    { refine (run_invariant unc_inv uncacheable_ok _ tr (init ks) s (unc_inv_init ks Hks) Hok Hrun).
+      intros s0 a s1 A B C. exact (unc_inv_step s0 a s1 A B C). }
+    destruct Hinv as (_ & Hcl & _). specialize (Hcl c). rewrite Hd in Hcl. exact Hcl.
+Qed.
